@@ -55,16 +55,33 @@ def main():
         print(json.dumps(meta, indent=1))
         return 2
     # run our check against it
-    st = sh('git -C /repo status --porcelain')[1].strip()
-    assert st == '', '/repo has uncommitted changes: ' + st
-    rc, o = sh(f'git -C /repo apply {patch}')
-    assert rc == 0, o
+    jobs = sys.argv[sys.argv.index('--jobs') + 1] if '--jobs' in sys.argv else None
+    cmd = f'/venv/bin/python check.py {prop} --tier {tier}' + (f" --only '{only}'" if only else '') + (f' --jobs {jobs}' if jobs else '')
     t0 = time.time()
-    try:
-        cmd = f'/venv/bin/python check.py {prop} --tier {tier}' + (f" --only '{only}'" if only else '')
-        rcc, oc = sh(cmd, cwd=VERIF, timeout=7200)
-    finally:
-        sh('git -C /repo checkout -- .')
+    if '--isolated' in sys.argv:
+        # same check, but against a scratch worktree carrying the patch (VERIF_REPO) and with evidence/replays redirected
+        # (VERIF_OUT), so that it can run while other checks are using /repo and /verif/evidence
+        wt2, out2 = f'/tmp/seedrun_{name}', f'/tmp/seedrun_{name}_out'
+        sh(f'git -C /repo worktree remove --force {wt2}')
+        rc, o = sh(f'git -C /repo worktree add -q --detach {wt2} HEAD')
+        assert rc == 0, o
+        try:
+            rc, o = sh(f'git apply {patch}', cwd=wt2)
+            assert rc == 0, o
+            os.makedirs(out2, exist_ok=True)
+            rcc, oc = sh(f'VERIF_REPO={wt2} VERIF_OUT={out2} ' + cmd, cwd=VERIF, timeout=7200)
+        finally:
+            sh(f'git -C /repo worktree remove --force {wt2}')
+            shutil.rmtree(out2, ignore_errors=True)
+    else:
+        st = sh('git -C /repo status --porcelain')[1].strip()
+        assert st == '', '/repo has uncommitted changes: ' + st
+        rc, o = sh(f'git -C /repo apply {patch}')
+        assert rc == 0, o
+        try:
+            rcc, oc = sh(cmd, cwd=VERIF, timeout=7200)
+        finally:
+            sh('git -C /repo checkout -- .')
     viol = [l for l in oc.splitlines() if l.startswith('VIOLATION')]
     herr = [l for l in oc.splitlines() if l.startswith('HARNESS-ERROR')]
     summary = [l for l in oc.splitlines() if l.strip().startswith('confirmed ')]
@@ -80,8 +97,9 @@ def main():
     os.makedirs(dst, exist_ok=True)
     shutil.copy(patch, os.path.join(dst, 'patch.diff'))
     shutil.copy(demo, os.path.join(dst, 'demo.py'))
-    if os.path.exists(os.path.join(src, 'notes.md')):
-        meta['needs_to_manifest'] = open(os.path.join(src, 'notes.md')).read()[:1500]
+    for nn in ('notes.md', 'NOTES.md'):
+        if os.path.exists(os.path.join(src, nn)):
+            meta['needs_to_manifest'] = open(os.path.join(src, nn)).read()[:1500]
     prev = os.path.join(dst, 'meta.json')
     hist = []
     if os.path.exists(prev):
@@ -90,7 +108,8 @@ def main():
     meta['history'] = hist
     json.dump(meta, open(prev, 'w'), indent=1)
     # clean replay files produced by the run against the patched tree
-    shutil.rmtree(os.path.join(VERIF, 'replays', prop), ignore_errors=True)
+    if '--isolated' not in sys.argv:
+        shutil.rmtree(os.path.join(VERIF, 'replays', prop), ignore_errors=True)
     return 0 if meta['caught'] else 1
 
 
